@@ -175,7 +175,11 @@ func runC07(c *Ctx, r *Report, tier string) {
 			if call, ok := in.(*ssa.Call); ok && c.calleeName(call.Common()) == "append" {
 				for _, e := range sliceLitElems(call.Call.Args[1]) {
 					t := c.term(e)
-					r.Check(strings.HasPrefix(t, "assert[*Command](phi{") && strings.Contains(t, "Group.parent(Command.Group("), "TABLES", c.fname(ml), "parent chain element", c.ipos(in), "parent.(*Command) walking up from c.parent", "chain element is "+trunc(t, 120))
+					okEl := strings.HasPrefix(t, "assert[*Command](phi{") && strings.Contains(t, "Group.parent(Command.Group(")
+					if !okEl && strings.HasPrefix(t, "phi{assert[*Command](Group.parent(Command.Group(P0)))#0 | assert[*Command](Group.parent(Command.Group(phi↺)))#0}") {
+						okEl = true // the comma-ok loop form: cmd, ok := c.parent.(*Command); ok; cmd, ok = cmd.parent.(*Command)
+					}
+					r.Check(okEl, "TABLES", c.fname(ml), "parent chain element", c.ipos(in), "parent.(*Command) walking up from c.parent", "chain element is "+trunc(t, 120))
 				}
 			}
 		}
